@@ -90,8 +90,24 @@ type bq interface {
 // generator
 
 type gen struct {
-	r   *vlib.Rng
-	out *vlib.Out
+	r        *vlib.Rng
+	out      *vlib.Out
+	zeroLeft bool // this scenario may still enqueue the zero value (at most once: the oracles rely on distinct values)
+}
+
+// val maps the scenario-unique positive value x into the value domain that is actually enqueued: now
+// and then the zero value of T (what the array queue writes into a vacated slot, and what a `== zero`
+// fast path would mistake for "nothing"), at most once per scenario, and negative values (-x, still
+// distinct from every other value of the scenario).
+func (g *gen) val(x int) int {
+	switch {
+	case g.zeroLeft && g.r.Chance(12):
+		g.zeroLeft = false
+		return 0
+	case g.r.Chance(10):
+		return -x
+	}
+	return x
 }
 
 func (g *gen) ctx(short bool) string {
@@ -138,6 +154,7 @@ func (g *gen) newq() (string, int) {
 		c = 1
 	}
 	g.out.Line("new %s %d", kind, c)
+	g.zeroLeft = r.Chance(40)
 	return kind, c
 }
 
@@ -147,7 +164,7 @@ func (g *gen) call(tid int, val *int, short bool, enqBias int) {
 	switch {
 	case p < enqBias:
 		*val++
-		g.out.Line("call %d enq %d %s", tid, (tid+1)*1000+*val, g.ctx(short))
+		g.out.Line("call %d enq %d %s", tid, g.val((tid+1)*1000+*val), g.ctx(short))
 	case p < 84:
 		g.out.Line("call %d deq %s", tid, g.ctx(short))
 	case p < 92:
@@ -207,7 +224,7 @@ func (g *gen) seq() {
 		switch {
 		case p < bias:
 			val++
-			g.out.Line("call 0 enq %d %s", 1000+val, ctx)
+			g.out.Line("call 0 enq %d %s", g.val(1000+val), ctx)
 		case p < 84:
 			g.out.Line("call 0 deq %s", ctx)
 		case p < 92:
@@ -225,6 +242,7 @@ func (g *gen) wake() {
 	kind := vlib.Pick(r, []string{"abq", "lbq"})
 	c := vlib.Pick(r, []int{1, 1, 2, 3})
 	g.out.Line("new %s %d", kind, c)
+	g.zeroLeft = r.Chance(40)
 	w := r.Range(1, 5)
 	if r.Bool() {
 		// w dequeuers blocked on empty, one or two producers feeding them after a pause
@@ -238,7 +256,7 @@ func (g *gen) wake() {
 		}
 		for k < w {
 			p := k % np
-			g.out.Line("call %d enq %d %s", w+p, (w+p+1)*1000+k, vlib.Pick(r, []string{"none", "to:2000000"}))
+			g.out.Line("call %d enq %d %s", w+p, g.val((w+p+1)*1000+k), vlib.Pick(r, []string{"none", "to:2000000"}))
 			if r.Chance(40) {
 				g.out.Line("call %d pause %d", w+p, r.Range(0, 300))
 			}
@@ -247,11 +265,11 @@ func (g *gen) wake() {
 	} else {
 		// fill the queue, then w enqueuers blocked on full, a consumer freeing slots after a pause
 		for i := 0; i < c; i++ {
-			g.out.Line("call %d enq %d none", w, (w+1)*1000+i)
+			g.out.Line("call %d enq %d none", w, g.val((w+1)*1000+i))
 		}
 		for t := 0; t < w; t++ {
 			g.out.Line("call %d pause %d", t, r.Range(300, 600))
-			g.out.Line("call %d enq %d none", t, (t+1)*1000)
+			g.out.Line("call %d enq %d none", t, g.val((t+1)*1000))
 		}
 		g.out.Line("call %d pause %d", w, r.Range(700, 2500))
 		for k := 0; k < w; k++ {
@@ -273,6 +291,7 @@ func (g *gen) wakeCancel() {
 	kind := vlib.Pick(r, []string{"lbq", "lbq", "abq"})
 	c := vlib.Pick(r, []int{1, 1, 2, 3})
 	g.out.Line("new %s %d", kind, c)
+	g.zeroLeft = r.Chance(40)
 	w := r.Range(1, 4)
 	waker := w
 	if r.Bool() {
@@ -281,7 +300,7 @@ func (g *gen) wakeCancel() {
 		}
 		g.out.Line("call %d pause %d", waker, r.Range(300, 2000))
 		for k := 0; k < w; k++ {
-			g.out.Line("call %d enq %d none", waker, (waker+1)*1000+k)
+			g.out.Line("call %d enq %d none", waker, g.val((waker+1)*1000+k))
 			g.out.Line("call %d cancel %d", waker, k)
 			if r.Chance(30) {
 				g.out.Line("call %d cancel %d", waker, r.Intn(w))
@@ -289,11 +308,11 @@ func (g *gen) wakeCancel() {
 		}
 	} else {
 		for i := 0; i < c; i++ {
-			g.out.Line("call %d enq %d none", waker, (waker+1)*1000+i)
+			g.out.Line("call %d enq %d none", waker, g.val((waker+1)*1000+i))
 		}
 		for t := 0; t < w; t++ {
 			g.out.Line("call %d pause %d", t, r.Range(300, 600))
-			g.out.Line("call %d enq %d %s", t, (t+1)*1000, vlib.Pick(r, []string{"none", "none", "to:2000000"}))
+			g.out.Line("call %d enq %d %s", t, g.val((t+1)*1000), vlib.Pick(r, []string{"none", "none", "to:2000000"}))
 		}
 		g.out.Line("call %d pause %d", waker, r.Range(800, 2500))
 		for k := 0; k < w; k++ {
@@ -313,6 +332,7 @@ func (g *gen) cancelStorm() {
 	kind := vlib.Pick(r, []string{"abq", "lbq"})
 	c := vlib.Pick(r, caps)
 	g.out.Line("new %s %d", kind, c)
+	g.zeroLeft = r.Chance(40)
 	nth := r.Range(2, 5)
 	val := 0
 	for t := 0; t < nth; t++ {
@@ -321,7 +341,7 @@ func (g *gen) cancelStorm() {
 			val++
 			cx := vlib.Pick(r, []string{"pre", "to:0", fmt.Sprintf("to:%d", r.Range(0, 80)), fmt.Sprintf("cn:%d", r.Range(0, 80)), fmt.Sprintf("to:%d", r.Range(0, 800))})
 			if r.Chance(55) {
-				g.out.Line("call %d enq %d %s", t, (t+1)*1000+val, cx)
+				g.out.Line("call %d enq %d %s", t, g.val((t+1)*1000+val), cx)
 			} else {
 				g.out.Line("call %d deq %s", t, cx)
 			}
@@ -338,8 +358,10 @@ func (g *gen) snap() {
 	c := vlib.Pick(r, []int{2, 3, 8})
 	g.out.Line("new %s %d", kind, c)
 	n := r.Range(20, 40)
+	// the producer's increasing sequence: now and then it starts below zero and runs through the zero value
+	base := vlib.Pick(r, []int{1001, 1001, 1001, 0, -7, -n + 1})
 	for i := 0; i < n; i++ {
-		g.out.Line("call 0 enq %d none", 1001+i)
+		g.out.Line("call 0 enq %d none", base+i)
 		if r.Chance(20) {
 			g.out.Line("call 0 pause %d", r.Range(0, 30))
 		}
@@ -370,6 +392,19 @@ func corpus(out *vlib.Out) {
 		"new lbq 1\ncall 0 enq 1001 pre\ncall 0 enq 1002 none\ncall 0 enq 1003 to:300\ncall 0 deq pre\ncall 0 deq none\ncall 0 deq to:200\ngo 1 seq",
 		"new lbq 0\ncall 0 enq 1001 none\ncall 0 enq 1002 pre\ncall 0 enq 1003 none\ncall 0 asslice\ncall 0 deq none\ncall 0 len\ngo 1 seq",
 		"new lbq -1\ncall 0 enq 1001 none\ncall 1 enq 2001 none\ncall 1 enq 2002 none\ncall 0 deq none\ncall 0 deq to:500\ngo 2 lin",
+		// the zero value of T (what a vacated slot of the array queue holds) and negative values are
+		// elements like any other: accepted, counted, shown by AsSlice, delivered in order, also to a
+		// parked consumer and by a parked producer
+		"new abq 2\ncall 0 enq 0 none\ncall 0 len\ncall 0 asslice\ncall 0 enq -5 none\ncall 0 asslice\ncall 0 enq 7 to:300\ncall 0 deq none\ncall 0 enq 8 none\ncall 0 asslice\ncall 0 deq none\ncall 0 deq none\ncall 0 deq to:300\ngo 1 seq",
+		"new abq 1\ncall 0 enq 0 none\ncall 0 len\ncall 0 asslice\ncall 0 deq none\ncall 0 enq -1 none\ncall 0 deq none\ncall 0 deq to:200\ngo 1 seq",
+		"new lbq 2\ncall 0 enq 0 none\ncall 0 len\ncall 0 asslice\ncall 0 enq -5 none\ncall 0 asslice\ncall 0 enq 7 to:300\ncall 0 deq none\ncall 0 enq 8 none\ncall 0 asslice\ncall 0 deq none\ncall 0 deq none\ncall 0 deq to:300\ngo 1 seq",
+		"new lbq 0\ncall 0 enq -3 none\ncall 0 enq 0 none\ncall 0 enq 3 none\ncall 0 asslice\ncall 0 deq none\ncall 0 deq none\ncall 0 len\ncall 0 deq none\ncall 0 deq to:200\ngo 1 seq",
+		"new abq 3\ncall 0 enq 1001 none\ncall 0 enq 0 none\ncall 1 enq -2001 none\ncall 1 deq none\ncall 2 deq none\ncall 2 asslice\ngo 3 lin",
+		"new abq 1\ncall 0 deq none\ncall 1 pause 2000\ncall 1 enq 0 none\ngo 3 lin",
+		"new lbq 1\ncall 0 deq none\ncall 1 pause 2000\ncall 1 enq 0 none\ngo 3 lin",
+		"new abq 1\ncall 1 enq -2001 none\ncall 0 pause 300\ncall 0 enq 0 none\ncall 1 pause 1500\ncall 1 deq none\ncall 1 deq none\ngo 3 lin",
+		"new lbq 1\ncall 1 enq -2001 none\ncall 0 pause 300\ncall 0 enq 0 none\ncall 1 pause 1500\ncall 1 deq none\ncall 1 deq none\ngo 3 lin",
+		"new abq 2\ncall 0 enq -2 none\ncall 0 enq -1 none\ncall 0 enq 0 none\ncall 0 enq 1 none\ncall 0 enq 2 none\ncall 1 deq none\ncall 1 deq none\ncall 1 deq none\ncall 1 deq none\ncall 1 deq none\ncall 2 asslice\ncall 2 asslice\ncall 2 len\ncall 2 asslice\ncall 3 asslice\ncall 3 asslice\ngo 1 snap",
 		// wake-ups
 		"new lbq 1\ncall 0 deq none\ncall 1 pause 2000\ncall 1 enq 2007 none\ngo 3 lin",
 		"new abq 1\ncall 0 deq none\ncall 1 pause 2000\ncall 1 enq 2007 none\ngo 3 lin",
@@ -483,28 +518,29 @@ type flight struct {
 }
 
 type stats struct {
-	Ops        map[string]int `json:"ops"`
-	Results    map[string]int `json:"results"`
-	Scenarios  map[string]int `json:"scenarios"`
-	Kinds      map[string]int `json:"kinds"`
-	Threads    map[string]int `json:"threads_histogram"`
-	Calls      int            `json:"calls"`
-	Samples    int64          `json:"len_samples"`
-	RecheckCtx int            `json:"ctx_errors_from_post_lock_recheck"`
-	AcquireCtx int            `json:"ctx_errors_from_acquire"`
-	Hangs      int            `json:"hangs"`
-	Spurious   int            `json:"ctx_errors_with_live_context"`
-	Stuck      int            `json:"stuck"`
-	Wedged     int            `json:"wedged"`
-	Stopped    bool           `json:"stopped_early"`
-	WdCancels  int            `json:"watchdog_cancels"`
-	MaxLenSeen int            `json:"max_len_seen"`
-	Cases      int            `json:"cases"`
-	Lines      int            `json:"lines"`
-	Distinct   int            `json:"distinct_state_op_pairs"`
-	seen       map[string]struct{}
-	goLines    int
-	floodLines int
+	Ops           map[string]int `json:"ops"`
+	Results       map[string]int `json:"results"`
+	Scenarios     map[string]int `json:"scenarios"`
+	Kinds         map[string]int `json:"kinds"`
+	Threads       map[string]int `json:"threads_histogram"`
+	Calls         int            `json:"calls"`
+	Samples       int64          `json:"len_samples"`
+	RecheckCtx    int            `json:"ctx_errors_from_post_lock_recheck"`
+	AcquireCtx    int            `json:"ctx_errors_from_acquire"`
+	Hangs         int            `json:"hangs"`
+	Spurious      int            `json:"ctx_errors_with_live_context"`
+	Stuck         int            `json:"stuck"`
+	Wedged        int            `json:"wedged"`
+	Stopped       bool           `json:"stopped_early"`
+	WdCancels     int            `json:"watchdog_cancels"`
+	MaxLenSeen    int            `json:"max_len_seen"`
+	ZeroScenarios int            `json:"scenarios_enqueueing_the_zero_value"`
+	Cases         int            `json:"cases"`
+	Lines         int            `json:"lines"`
+	Distinct      int            `json:"distinct_state_op_pairs"`
+	seen          map[string]struct{}
+	goLines       int
+	floodLines    int
 }
 
 type scenario struct {
@@ -567,6 +603,14 @@ func (sc *scenario) run(mode string, st *stats) (string, bool, bool) {
 		progs[c.tid] = append(progs[c.tid], c)
 	}
 	st.Threads[strconv.Itoa(nth)]++
+	hasZero := false // the scenario itself offers the zero value: a 0 in a snapshot proves nothing then
+	for _, c := range sc.calls {
+		if c.op == "enq" && c.v == 0 {
+			hasZero = true
+			st.ZeroScenarios++
+			break
+		}
+	}
 
 	var logMu sync.Mutex
 	var events []string
@@ -623,8 +667,8 @@ func (sc *scenario) run(mode string, st *stats) (string, bool, bool) {
 						dup.Store(1)
 					}
 					seen[x] = true
-					if x == 0 {
-						zero.Store(1) // no zero is ever enqueued: a zeroed (dequeued) slot leaked into a snapshot
+					if x == 0 && !hasZero {
+						zero.Store(1) // no zero was enqueued: a zeroed (dequeued) slot leaked into a snapshot
 					}
 					if mode == "snap" && j > 0 && s[j-1] >= x {
 						unord.Store(1) // single producer of increasing values: a snapshot is increasing
